@@ -1,11 +1,15 @@
 import PyatvModel.Base.Bytes
 import PyatvModel.C03.Model
+import PyatvModel.C03.Dispatcher
 /-
 Line protocol (one script per line, stateless):
 
   keyed <removeOnTimeout 0|1> <dispatchUnmatched 0|1> <typed 0|1> <base> <script>
   fifo <script>
   rtsp <script>
+  disp <subs> <msgs>     subs = `type.callable.filter` joined by "," (filter `a` = all, `m<d>r<r>` =
+                         payload % d == r; "-" = none), msgs = `type.payload` joined by ","
+                         → per message the calls `subscription.callable` joined by "," ("-" = none), ";" between
 
 script = comma separated events:  s | b | r<key|n>:<payload> | e<key|n>:<payload> (event) |
          o<key|n>:<payload> (other non-response) | t<request>      ("-" = empty)
@@ -45,6 +49,34 @@ def bool? : String → Option Bool
   | "1" => some true
   | _ => none
 
+def parseFilt (f : String) : Option (Nat → Bool) :=
+  if f == "a" then some fun _ => true
+  else match f.toList with
+    | 'm' :: rest =>
+        match (String.ofList rest).splitOn "r" with
+        | [d, r] =>
+            match d.toNat?, r.toNat? with
+            | some d, some r => some fun v => v % d == r
+            | _, _ => none
+        | _ => none
+    | _ => none
+
+def parseSub (t : String) : Option Sub :=
+  match t.splitOn "." with
+  | [ty, l, f] =>
+      match ty.toNat?, l.toNat?, parseFilt f with
+      | some ty, some l, some f => some ⟨ty, l, f⟩
+      | _, _, _ => none
+  | _ => none
+
+def parseMsgD (t : String) : Option (Nat × Nat) :=
+  match t.splitOn "." with
+  | [ty, v] =>
+      match ty.toNat?, v.toNat? with
+      | some ty, some v => some (ty, v)
+      | _, _ => none
+  | _ => none
+
 def handle (_ : Unit) (ws : List String) : Unit × String :=
   match ws with
   | ["keyed", rm, dp, ty, base, script] =>
@@ -60,6 +92,14 @@ def handle (_ : Unit) (ws : List String) : Unit × String :=
       match parseScript script with
       | some evs => ((), showTrace (runT rstep rinit evs))
       | none => ((), "bad-op")
+  | ["disp", subs, msgs] =>
+      match (if subs == "-" then some [] else (subs.splitOn ",").mapM parseSub),
+            (msgs.splitOn ",").mapM parseMsgD with
+      | some subs, some msgs =>
+          let d := drun subs
+          ((), String.intercalate ";" (msgs.map fun m =>
+            csv ((ddispatch d m.1 m.2).map fun c => s!"{c.1}.{c.2}")))
+      | _, _ => ((), "bad-op")
   | _ => ((), "bad-op")
 
 end PyatvModel.C03
